@@ -97,6 +97,23 @@ func (c *Collector) expired() bool {
 	return false
 }
 
+// withShare runs f with the deadline moved forward so that f gets at most the
+// given share of the time that is left; checks with several parts use it so
+// that the first part cannot use up the whole budget.
+func (c *Collector) withShare(share float64, f func()) {
+	if c.deadline.IsZero() {
+		f()
+		return
+	}
+	full := c.deadline
+	left := time.Until(full)
+	if left > 0 {
+		c.deadline = time.Now().Add(time.Duration(float64(left) * share))
+	}
+	f()
+	c.deadline = full
+}
+
 func (c *Collector) state(d [32]byte) {
 	c.states[binary.LittleEndian.Uint64(d[:8])] = struct{}{}
 }
